@@ -6,6 +6,8 @@
 package c16
 
 import (
+	evmtypes "github.com/tharsis/ethermint/x/evm/types"
+	ibcexported "github.com/cosmos/ibc-go/v3/modules/core/exported"
 	paramproposal "github.com/cosmos/cosmos-sdk/x/params/types/proposal"
 	"github.com/cosmos/cosmos-sdk/x/params"
 	"sort"
@@ -136,6 +138,12 @@ func Run(r *ev.Run, tier string) (evals, nontrivial int64) {
 				panic(err)
 			}
 		})},
+		{"pair enabled, EVM calls disabled by governance", mk(func(ctx sdk.Context) {
+			register(ctx)
+			ep := c.App.EvmKeeper.GetParams(ctx)
+			ep.EnableCall = false
+			c.App.EvmKeeper.SetParams(ctx, ep)
+		})},
 		{"pair disabled", mk(func(ctx sdk.Context) {
 			register(ctx)
 			if _, err := c.App.AggregateKeeper.ToggleRelay(ctx, voucher); err != nil {
@@ -168,8 +176,22 @@ func Run(r *ev.Run, tier string) (evals, nontrivial int64) {
 		out["erc20/u1"] = "0"
 		if id := c.App.AggregateKeeper.GetDenomMap(ctx, voucher); len(id) > 0 {
 			if p, ok := c.App.AggregateKeeper.GetTokenPair(ctx, id); ok {
+				// the observer's own call: on a throw-away branch with EVM calls enabled, and shielded from panics of the helper
 				cc, _ := ctx.CacheContext()
-				if res, err := c.App.AggregateKeeper.CallEVM(cc, erc20ABI(), aggregatetypes.ModuleAddress, p.GetERC20Contract(), "balanceOf", common.BytesToAddress(who)); err == nil {
+				ep := c.App.EvmKeeper.GetParams(cc)
+				ep.EnableCall = true
+				c.App.EvmKeeper.SetParams(cc, ep)
+				var res *evmtypes.MsgEthereumTxResponse
+				var err error
+				func() {
+					defer func() {
+						if rec := recover(); rec != nil {
+							err = fmt.Errorf("panic: %v", rec)
+						}
+					}()
+					res, err = c.App.AggregateKeeper.CallEVM(cc, erc20ABI(), aggregatetypes.ModuleAddress, p.GetERC20Contract(), "balanceOf", common.BytesToAddress(who))
+				}()
+				if err == nil && res != nil {
 					if vals, err := erc20ABI().Unpack("balanceOf", res.Ret); err == nil {
 						out["erc20/u1"] = fmt.Sprint(vals[0])
 					}
@@ -190,7 +212,20 @@ func Run(r *ev.Run, tier string) (evals, nontrivial int64) {
 			}
 			beforeM := observeFor(ctxM, who)
 			balM0, balI0 := c.App.BankKeeper.GetAllBalances(ctxM, who), c.App.BankKeeper.GetAllBalances(ctxI, who)
-			ackM := mw.OnRecvPacket(ctxM, pkt, c.Accounts["rel"].Acc)
+			var ackM ibcexported.Acknowledgement
+			panicked := false
+			func() {
+				defer func() {
+					if rec := recover(); rec != nil {
+						panicked = true
+						r.Violation("C16:middleware-panics-on-receive", fmt.Sprintf("state %q, packet %s: %v", stName, pc, rec), map[string]interface{}{"engine": "c16", "registry": stName, "packet": pc.String()})
+					}
+				}()
+				ackM = mw.OnRecvPacket(ctxM, pkt, c.Accounts["rel"].Acc)
+			}()
+			if panicked {
+				return
+			}
 			ackI := inner.OnRecvPacket(ctxI, pkt, c.Accounts["rel"].Acc)
 			afterM := observeFor(ctxM, who)
 			balM1, balI1 := c.App.BankKeeper.GetAllBalances(ctxM, who), c.App.BankKeeper.GetAllBalances(ctxI, who)
@@ -239,7 +274,7 @@ func Run(r *ev.Run, tier string) (evals, nontrivial int64) {
 				default:
 					r.Violation("C16:conversion-neither-complete-nor-absent", fmt.Sprintf("state %q, packet %s: receiver vouchers %+v, receiver tokens %+v, escrowed vouchers %+v for amount %s", stName, pc, dV, dE, dM, amt), map[string]interface{}{"engine": "c16", "case": desc})
 				}
-				if stName != "pair enabled" && converted && !amt.IsZero() {
+				if !strings.HasPrefix(stName, "pair enabled") && converted && !amt.IsZero() {
 					r.Violation("C16:conversion-while-disabled-or-unregistered", fmt.Sprintf("state %q, packet %s", stName, pc), nil)
 				}
 			}
